@@ -194,4 +194,16 @@ end
 def decodeSrc (sd : SD) (src : Src) : Outcome (Val × Nat × SDec) :=
   if sd.descOk then decStruct sd.tag sd { s := Stack.top src, last := 0 } else .err .other
 
+/-- successive Decode calls on ONE Decoder (cf. KmipModel/Stream.lean) -/
+def decodeStream : List SD → SDec → List (Val × Nat) × Option ErrClass × SDec
+  | [], d => ([], none, d)
+  | sd :: rest, d =>
+    if sd.descOk then
+      match decStruct sd.tag sd d with
+      | .ok (v, n, d') =>
+        ((v, n) :: (decodeStream rest d').1, (decodeStream rest d').2.1, (decodeStream rest d').2.2)
+      | .err e => ([], some e, d)
+      | .panic _ => ([], some .other, d)
+    else ([], some .other, d)
+
 end Kmip.Stk
